@@ -46,6 +46,10 @@ RFC_PID = {
 RFC_EXT = {
     "common::alc::push_fdt": [("HET", 8, ("const", 192)), ("V", 4, ("field", r"^version$")), ("FDT Instance ID", 20, ("field", r"^fdt_id$"))],
     "common::alc::push_cenc": [("HET", 8, ("const", 193)), ("CENC", 8, ("field", r"^cenc$")), ("reserved", 16, ("const", 0))],
+    # RFC 5651 section 5.2.2 EXT_TIME with SCT-High and SCT-Low: Use field bits SCT-Hi, SCT-Low, ERT, SLC, 4 reserved, 8 PI-specific
+    "common::alc::push_sct": [("HET", 8, ("const", 2)), ("HEL", 8, ("const", 3)), ("SCT-High", 1, ("const", 1)), ("SCT-Low", 1, ("const", 1)),
+                              ("ERT", 1, ("const", 0)), ("SLC", 1, ("const", 0)), ("reserved", 4, ("const", 0)), ("PI-specific", 8, ("const", 0)),
+                              ("SCT (NTP seconds . fraction)", 64, ("field", r"system_time_to_ntp"))],
 }
 # sources whose value range is narrower than their type, with the reason (the layout check uses the declared width)
 LEAF_WIDTH = {
@@ -369,7 +373,7 @@ def run(ctx):
             else:
                 r4.violation(label, "inc_hdr_len(data, %d) announces %d bytes but %d bytes are appended: every later header "
                                     "extension is mis-located by the receiver" % (words, words * 4, nbytes), loc(f.sp))
-    r1.floor(12, "writers")
+    r1.floor(13, "writers")
     # other inc_hdr_len callers (push_sct: variable number of words)
     for s in find_calls(prog, r"^common::lct::inc_hdr_len$"):
         caller = s.func.root().path
@@ -489,6 +493,13 @@ def run(ctx):
     r5.ok("functions scanned", "%d header codec functions" % n, "src/common")
     r5.floor(1, "scan")
 
+    # ---- R8 EXT_TIME reader and the NTP helpers -----------------------------------------------------------------
+    r8 = ctx.rule("C06.R8", "EXT_TIME: parse_sct takes SCT-High / SCT-Low / ERT / SLC from Use-field bits 16..19, expects 4*(1 + number of flags) bytes, "
+                            "returns None without SCT-High, reads the seconds from wire bits 32..63 and (only with SCT-Low) the fraction from bits 64..95, "
+                            "seconds in the upper half of the NTP value; system_time_to_ntp / ntp_to_system_time use the same 1900->1970 offset with "
+                            "opposite signs, seconds << 32 | fraction, and inverse fraction scalings (2^32 / 10^6)", "E5 bit provenance + affine forms")
+    ext_time_rule(ctx, r8)
+
     # ---- R7 first LCT word + value-dependent lengths ------------------------------------------------------
     r7 = ctx.rule("C06.R7", "LCT first word: every flag sits at its RFC 5651 bit position on both sides; the bytes written / read for CCI, TSI, TOI are "
                             "4*(C+1), 4*S+2*H, 4*O+2*H of the SAME flag values, and HDR_LEN = 2+O+S+H+C (structure of the value-dependent widths)", "E5 + affine forms + E4 leaf widths")
@@ -513,6 +524,194 @@ def run(ctx):
 
 
 # ---------------------------------------------------------------------------------------------------------------------
+def ext_time_rule(ctx, rule):
+    from .. import polarity
+    from ..cfg import facts_of
+    prog = ctx.prog
+    f = prog.fn("common::alc::parse_sct")
+    ctx.analysed(f.path)
+    sl = Slicer(f.body)
+    fl = Flow(f.body)
+
+    def bsrc(e):
+        e = bits.strip(e)
+        if e[0] == "var" and e[1] == "ext" and e[2] in ("", "[_]"):
+            return e[1]
+        return None
+    ev = bits.Eval(byte_source=bsrc)
+    vd = sl.var_defs()
+    # the four flag locals: one wire bit each
+    flags = {}
+    for name, defs in vd.items():
+        for (proj, e, bb) in defs:
+            if proj != "":
+                continue
+            try:
+                rs = bits.runs(reader_bits(ev, sl.expand(e, stop={"ext"})))
+            except bits.Unknown:
+                continue
+            nz = [r for r in rs if not (r[0] == "const" and r[2] == 0)]
+            if len(nz) == 1 and nz[0][0] == "wire" and nz[0][1] == 1 and rs[-1] == nz[0] and 16 <= nz[0][3] <= 23:
+                flags[nz[0][3]] = name
+    want = {16: "SCT-High", 17: "SCT-Low", 18: "ERT", 19: "SLC"}
+    for b, nm in sorted(want.items()):
+        key = "parse_sct %s flag" % nm
+        if b in flags:
+            rule.ok(key, "`%s` = wire bit %d" % (flags[b], b), loc(f.sp))
+        else:
+            rule.violation(key, "no local of parse_sct is read from Use-field bit %d (%s); flag bits found: %s" % (b, nm, flags), loc(f.sp))
+    extra = [b for b in flags if b not in want]
+    if extra:
+        rule.violation("parse_sct reserved Use bits", "reserved Use-field bits %s are interpreted as flags" % extra, loc(f.sp))
+    if not all(b in flags for b in want):
+        return
+    hi, low = flags[16], flags[17]
+    # expected length
+    done = False
+    for name, defs in vd.items():
+        for (proj, e, bb) in defs:
+            ex = sl.expand(e, stop=set(flags.values()))
+            if proj == "" and all(any(c[0] == "var" and c[1] == n_ for c in walk(ex)) for n_ in flags.values()):
+                form, c0 = polarity.affine(ex)
+                if form and not done:
+                    done = True
+                    if all(form.get(n_) == 4 for n_ in flags.values()) and c0 == 4 and len(form) == 4:
+                        rule.ok("parse_sct expected length", "4 * (1 + SCT-High + SCT-Low + ERT + SLC)", loc(f.sp))
+                    else:
+                        rule.violation("parse_sct expected length", "the extension length is compared with %s + %s; RFC 5651: one word per flag plus the "
+                                                                   "header word" % (form, c0), loc(f.sp))
+    if not done:
+        rule.violation("parse_sct expected length", "no length expression over the four flags found", loc(f.sp))
+    # None without SCT-High
+    nones = ret_assign_blocks(f.body, lambda e: is_variant(e, "Ok") and "None" in show(e))
+    okn = nones and all(any(a[0] == "eq" and t and {show(a[1]), show(a[2])} == {hi, "0"} for (a, t) in fl.facts_at(bb)) for bb, _ in nones)
+    if okn:
+        rule.ok("parse_sct without SCT-High", "Ok(None) under %s == 0" % hi, loc(f.sp))
+    else:
+        rule.violation("parse_sct without SCT-High", "Ok(None) is not tied to SCT-High == 0", loc(f.sp))
+    # the NTP value handed to ntp_to_system_time
+    calls = call_sites(f, lambda p, c: p == "tools::ntp_to_system_time")
+    if not calls:
+        rule.violation("parse_sct -> ntp_to_system_time", "parse_sct does not convert through tools::ntp_to_system_time", loc(f.sp))
+    for s_ in calls:
+        multi = set(n_ for n_, ds in vd.items() if len([d for d in ds if d[0] == ""]) > 1)
+        ex = sl.expand(s_.expr[2][0], stop={"ext"} | multi)
+        key = "parse_sct NTP value"
+        try:
+            rs = bits.runs(reader_bits(ev, ex))
+        except bits.Unknown as u:
+            rule.violation(key, "cannot evaluate %s: %s" % (show(ex, 80), u), s_.loc)
+            continue
+        hi_ok = len(rs) >= 1 and rs[0][0] == "wire" and rs[0][1] == 32 and rs[0][3] == 32
+        lo = rs[1:] if hi_ok else []
+        lo_ok = False
+        why = ""
+        if len(lo) == 1 and lo[0][0] == "wire" and lo[0][1] == 32 and lo[0][3] == 64:
+            # unconditional read of the second word: only right if SCT-Low is known to be set
+            lo_ok = any(a[0] == "eq" and t and {show(a[1]), show(a[2])} == {low, "1"} for (a, t) in fl.facts_at(s_.bb))
+            why = "fraction word read without testing SCT-Low"
+        elif len(lo) == 1 and lo[0][0] == "field" and lo[0][1] == 32 and lo[0][2] in multi:
+            lo_ok = True
+            for (proj, e, bb) in vd[lo[0][2]]:
+                if proj != "":
+                    continue
+                try:
+                    r2_ = bits.runs(reader_bits(ev, sl.expand(e, stop={"ext"})))
+                except bits.Unknown as u:
+                    lo_ok, why = False, str(u)
+                    continue
+                if len(r2_) == 1 and r2_[0][0] == "const" and r2_[0][2] == 0:
+                    continue
+                if len(r2_) == 1 and r2_[0][0] == "wire" and r2_[0][1] == 32 and r2_[0][3] == 64:
+                    fs = fl.facts_at(bb)
+                    if not any((a[0] == "eq" and t and {show(a[1]), show(a[2])} == {low, "1"}) for (a, t) in fs):
+                        lo_ok, why = False, "the fraction word is read on a path where SCT-Low is not known to be 1"
+                    continue
+                lo_ok, why = False, "fraction defined as %s" % (r2_,)
+        if hi_ok and lo_ok:
+            rule.ok(key, "seconds = wire bits 32..63 (upper half), fraction = wire bits 64..95 under SCT-Low", s_.loc)
+        else:
+            rule.violation(key, "the NTP value is built from %s%s" % (rs, (": " + why) if why else ""), s_.loc)
+    # get_sender_current_time asks for the EXT_TIME extension
+    g = prog.fn("common::alc::get_sender_current_time")
+    ctx.analysed(g.path)
+    for s_ in call_sites(g, lambda p, c: p == "common::lct::get_ext"):
+        a = Slicer(g.body).expand(s_.expr[2][2])
+        key = "get_sender_current_time -> get_ext(Ext::Time)"
+        val = None
+        try:
+            bb_ = bits.Eval().bits(a)
+            if all(x in (0, 1) for x in bb_):
+                val = int("".join(str(x) for x in bb_), 2)
+        except bits.Unknown:
+            pass
+        if re.search(r"Ext::Time", show(a, 80)) or val == 2:
+            rule.ok(key, show(a, 40), s_.loc)
+        else:
+            rule.violation(key, "looks up extension %s" % show(a, 60), s_.loc)
+    # NTP helpers
+    OFF = 2208988800
+    w = prog.fn("tools::system_time_to_ntp")
+    r_ = prog.fn("tools::ntp_to_system_time")
+    ctx.analysed(w.path, r_.path)
+    ws, rs_ = Slicer(w.body), Slicer(r_.body)
+    wret = [ws.expand(e) for _, e in ret_assign_blocks(w.body, lambda e: is_variant(e, "Ok"))]
+    okw = False
+    for e in wret:
+        ors = [c for c in walk(e) if c[0] == "bin" and c[1] == "BitOr"]
+        for c in ors:
+            l_ = bits.strip(c[2])
+            if l_[0] == "bin" and l_[1].startswith("Shl") and show(l_[3]) == "32":
+                form, c0 = polarity.affine(l_[2])
+                if c0 == OFF and len(form) == 1 and list(form.values()) == [1] and "as_secs" in list(form)[0]:
+                    fr = show(c[3], 300)
+                    if re.search(r"subsec_(micros|nanos)", fr):
+                        okw = True
+    if okw:
+        rule.ok("system_time_to_ntp", "(as_secs + 2208988800) << 32 | fraction", loc(w.sp))
+    else:
+        rule.violation("system_time_to_ntp", "returns %s; expected (unix seconds + 2208988800) << 32 | fraction" % [show(e, 120) for e in wret], loc(w.sp))
+    # fraction scalings
+    def consts_of(fn_, sl_, op):
+        out = set()
+        for blk in fn_.body.blocks:
+            for st in blk.stmts:
+                if st.k == "assign":
+                    for c in walk(sl_.expand(sl_.x.rvalue(st.rv, sl_.x.depth))):
+                        if c[0] == "bin" and c[1].replace("WithOverflow", "").startswith(op):
+                            for side in (c[2], c[3]):
+                                v = const_value(bits.strip(side))
+                                if v is None and bits.strip(side)[0] == "bin" and bits.strip(side)[1].startswith("Shl"):
+                                    a_, b_ = const_value(bits.strip(side)[2]), const_value(bits.strip(side)[3])
+                                    if a_ is not None and b_ is not None:
+                                        v = a_ << b_
+                                if isinstance(v, int) and v > 1000:
+                                    out.add(v)
+        return out
+    wm, wd = consts_of(w, ws, "Mul"), consts_of(w, ws, "Div")
+    rm, rd = consts_of(r_, rs_, "Mul"), consts_of(r_, rs_, "Div")
+    key = "NTP fraction scaling"
+    if (1 << 32) in wm and 1000000 in wd and 1000000 in rm and (1 << 32) in rd:
+        rule.ok(key, "writer: micros * 2^32 / 10^6 ; reader: fraction * 10^6 / 2^32", loc(w.sp))
+    else:
+        rule.violation(key, "writer multiplies by %s and divides by %s; reader multiplies by %s and divides by %s; expected 2^32 / 10^6 in inverse roles" % (
+            sorted(wm), sorted(wd), sorted(rm), sorted(rd)), loc(w.sp))
+    # reader offset
+    okr = False
+    for name, defs in rs_.var_defs().items():
+        for (proj, e, bb) in defs:
+            ex = rs_.expand(e, stop={"ntp"})
+            form, c0 = polarity.affine(ex)
+            if c0 == -OFF and len(form) == 1 and list(form.values()) == [1] and re.search(r"ntp >> 32", list(form)[0]):
+                fs = Flow(r_.body).facts_at(bb)
+                okr = True
+    if okr:
+        rule.ok("ntp_to_system_time", "unix seconds = (ntp >> 32) - 2208988800", loc(r_.sp))
+    else:
+        rule.violation("ntp_to_system_time", "the unix seconds are not (ntp >> 32) - 2208988800", loc(r_.sp))
+    rule.floor(11, "EXT_TIME facts")
+
+
 # R7: the first LCT word and the value-dependent field lengths (structure only: which flag drives which length)
 
 RFC_LCT_WORD = [("V", 4), ("C", 2), ("PSI", 2), ("S", 1), ("O", 2), ("H", 1), ("Res", 2), ("A", 1), ("B", 1), ("HDR_LEN", 8), ("CP", 8)]
